@@ -1,17 +1,34 @@
 (* C06: reading property keys and enum literals back from a generated types.ts through the
-   specification parser of the emitted module subset (Spec/TsModule.v). Raw texts: string
-   literal bodies are not unescaped. *)
+   specification parser of the emitted module subset (Spec/TsModule.v). Quoted keys and string
+   literals are decoded (js_unescape), so a key printed bare and the same key printed as a
+   double-quoted escaped literal read the same. *)
 From Coq Require Import String Ascii.
 From Coq Require Import List Arith Bool.
+Local Open Scope char_scope.
 Require Import TT.Model.Str TT.Spec.TsLex TT.Spec.TsModule.
 Import ListNotations.
 Local Open Scope list_scope.
 
-Definition key_text (k : key) : str := match k with KeyId s => s | KeyStr s => s | KeyNum s => s end.
+(* value of a JavaScript string literal body: backslash n r t denote control characters, a backslash
+   before any other character denotes that character (the escapes the generators print) *)
+Fixpoint js_unescape (s : str) : str :=
+  match s with
+  | [] => []
+  | a :: r =>
+      if Ascii.eqb a "\" then
+        match r with
+        | c :: r' =>
+            (if Ascii.eqb c "n" then ascii_of_nat 10 else if Ascii.eqb c "r" then ascii_of_nat 13
+             else if Ascii.eqb c "t" then ascii_of_nat 9 else c) :: js_unescape r'
+        | [] => [a]
+        end
+      else a :: js_unescape r
+  end.
+Definition key_text (k : key) : str := match k with KeyId s => s | KeyStr s => js_unescape s | KeyNum s => s end.
 Definition lits_of_ty (t : ty) : option (list str) :=
   match t with
-  | TyLit s => Some [s]
-  | TyUnion ts => mapM (fun t => match t with TyLit s => Some s | _ => None end) ts
+  | TyLit s => Some [js_unescape s]
+  | TyUnion ts => mapM (fun t => match t with TyLit s => Some (js_unescape s) | _ => None end) ts
   | _ => None
   end.
 Definition is_z_call (m : string) (e : ex) : option (list ex) :=
@@ -38,7 +55,7 @@ Definition decl_of (n : str) (it : item) : option decl_obs :=
         | Some [EObj props] =>
             option_map DZObject (mapM (fun p => match fst p with Some k => Some (key_text k) | None => None end) props)
         | _ => match is_z_call "enum" e with
-               | Some [EArr l] => option_map DZEnum (mapM (fun x => match x with EStr _ s => Some s | _ => None end) l)
+               | Some [EArr l] => option_map DZEnum (mapM (fun x => match x with EStr _ s => Some (js_unescape s) | _ => None end) l)
                | _ => None end
         end
       else None
